@@ -126,6 +126,9 @@ def run(rep, tier):
         r1 = [r for r in res if r[0] == 'R1'][0]
         rep.add('R8', 'LDAC:[%d,%d]' % (lo, hi), r1[1], pos(emit.node) + ' hexasm::numNibbles / emitProgramBin', r1[2], nontrivial=False)
     c05.rule_termination(rep, idx, 'R10')
+    rep.rule('R11', 'every recursive cycle of the call graph reachable from main() is depth-bounded (a nesting counter checked against a constant '
+             'before recursing); an assembler without recursion satisfies it trivially', floor=1, floor_reason='call-graph summary')
+    robust.rule_recursion(rep, 'R11', 'hexasm.cpp', tree_base=None, min_reachable=50)
     rep.rule('R9', 'an absolute reference to an unaligned label is rejected (import of C05-R3)', floor=15)
     from .c17 import _SubReport
 
